@@ -47,6 +47,10 @@ CLAIMS = {
          "Necessary conditions: every Builder::spawn / spawn_prometheus_endpoint result reaches join_handles.push on all paths that get to the watchdog; from the true edge of is_finished() no loop back edge is reachable (the only continuation is a return) and run() has no Ok return on any path; poll sleep constant 5 <= 9 s; worker closures return the worker's own Result and do not outlive it; no catch_unwind/resume_unwind in tracker crates (positive control present); all periodic glommio timer futures return Some on every path.",
          "Not decided: glommio propagating task panics to LocalExecutor::run, actual latency (dependency/OS behaviour).",
          "DESIGN.md section 2, C19"),
+ "C04": ("may-hold dataflow over RAII guard locals -> lock-order graph over all functions, closures and callees; path analysis of the announce-in-flight marker",
+         "For every schedule: the lock-order graph computed from all 9 acquisition sites (guard regions from acquisition to drop/move, callee and closure summaries) contains only shard -> torrent edges (no torrent -> shard, no shard -> shard, no torrent -> torrent), and no blocking call (recv, sleep, join, poll, std locks) is made under a guard - this decides deadlock freedom w.r.t. these locks. Lost-announce window: the cleaner drops a permitted torrent only on paths with (Arc::get_mut is Some or strong_count == 1) AND is_empty, in a retain over the shard write guard. Region obligations: Arc clone / entry() under the shard guard, swarm mutation under torrent.write, PeerMap methods lock-free.",
+         "Trusted: parking_lot semantics, Arc::get_mut. Not decided: linearizability of multi-torrent scrapes (each torrent is read atomically; the set is not).",
+         "DESIGN.md section 2, C04"),
 }
 
 PENDING_REASON = "check under construction in this build phase (static rules designed in DESIGN.md section 2); not claimed until its rule set is validated both ways"
